@@ -2265,10 +2265,16 @@ class TypeBlocks(ContainerOperand):
         '''
         if isinstance(key, tuple):
             # column dropping can leed to a TB with generator that yields nothing;
-            return TypeBlocks.from_blocks(
+            dropped = TypeBlocks.from_blocks(
                     self._drop_blocks(*key),
                     shape_reference=self._shape
                     )
+            if dropped._shape[1] == 0 and key[0] is not None:
+                # all columns dropped: the row count of the shape reference must follow the row drop
+                rows = np.arange(self._shape[0])[key[0]]
+                return self.from_zero_size_shape(
+                        (self._shape[0] - (1 if rows.ndim == 0 else len(rows)), 0))
+            return dropped
         return TypeBlocks.from_blocks(
                 self._drop_blocks(row_key=key),
                 shape_reference=self._shape
